@@ -185,7 +185,8 @@ impl Property for C18 {
          script writes numbered stderr lines before, between and after its redo-ifchange calls: \
          partial lines completed later (also in 3-5 pieces with pauses of 15 ms-1.5 s between them), \
          lines of 5 kB and 70 kB, lines that resemble structured records \
-         without being well-formed ones; the scheduler interleaves the writers with redo-log's reads, \
+         without being well-formed ones, lines from a background child of the script that writes \
+         into the same log concurrently; the scheduler interleaves the writers with redo-log's reads, \
          sleeps and lock probes; afterwards `redo-log --no-pretty -r` replays the top target; oracle: a \
          stack-machine parse of both outputs attributes every line to a target; per target the \
          sequence of its lines equals what its script wrote, exactly once and in order, in both views, \
@@ -209,7 +210,13 @@ impl Property for C18 {
         let mut mk_lines = |rng: &mut Rng, t: &str, stmts: &mut Vec<Stmt>, k: u64| {
             for _ in 0..k {
                 line_no += 1;
-                match rng.below(13) {
+                match rng.below(14) {
+                    13 => {
+                        // a second writer into this target's log: a background
+                        // child of the script keeps printing while the script
+                        // (and the redo processes it starts) write as well
+                        stmts.push(Stmt::ErrBg { n: rng.range(3, 8) as usize, tag: t.to_string() });
+                    }
                     0 => {
                         stmts.push(Stmt::ErrPart(format!("{} part{} ", t, line_no)));
                         stmts.push(Stmt::Err(format!("completed{}", line_no)));
@@ -259,6 +266,12 @@ impl Property for C18 {
             }
             let k = rng.range(0, 3);
             mk_lines(rng, &names[i], &mut stmts, k);
+            if stmts.iter().any(|s| matches!(s, Stmt::ErrBg { .. })) {
+                // with a second writer in the same log an unterminated piece
+                // would legitimately be completed by the other writer's line:
+                // scripts with a background writer write whole lines only
+                stmts.retain(|st| !matches!(st, Stmt::ErrPart(_)));
+            }
             rules.push((format!("{}.do", names[i]), Rule { version: 0, stmts }));
         }
         // make everything reachable from n0
@@ -355,10 +368,55 @@ impl Property for C18 {
                     continue;
                 }
                 let k = execs.get(t).copied().unwrap_or(1).max(1) as usize;
-                let got: Vec<String> = per
+                let all: Vec<String> = per
                     .get(t)
                     .map(|l| l.iter().filter(|x| !x.starts_with("redo ")).cloned().collect())
                     .unwrap_or_default();
+                // the lines of the script's background writers (`<t> bg<k>`) form
+                // streams of their own: each complete, once, in order; where they
+                // fall between the script's own lines is up to the scheduler
+                let is_bg = |x: &String| {
+                    x.strip_prefix(&format!("{} bg", t))
+                        .map_or(false, |r| !r.is_empty() && r.chars().all(|c| c.is_ascii_digit()))
+                };
+                let got_bg: Vec<String> = all.iter().filter(|x| is_bg(x)).cloned().collect();
+                let got: Vec<String> = all.iter().filter(|x| !is_bg(x)).cloned().collect();
+                let mut want_bg: Vec<String> = Vec::new();
+                if let Some((_, rule)) = case.scenario.rules.iter().find(|(p, _)| p.trim_end_matches(".do") == t) {
+                    for st in &rule.stmts {
+                        if let Stmt::ErrBg { n, tag } = st {
+                            for i in 0..*n {
+                                want_bg.push(format!("{} bg{}", tag, i));
+                            }
+                        }
+                    }
+                }
+                // several writers: every writer's own sequence is a subsequence
+                let mut sorted_got = got_bg.clone();
+                let mut sorted_want = want_bg.clone();
+                sorted_got.sort();
+                sorted_want.sort();
+                let bg_ok = sorted_got == sorted_want && {
+                    // per statement (same tag, restarting at 0) order is kept: the
+                    // numbers of equal-tag lines never decrease between restarts
+                    // more often than there are writers
+                    let nums: Vec<u32> = got_bg
+                        .iter()
+                        .filter_map(|x| x.rsplit("bg").next().and_then(|n| n.parse().ok()))
+                        .collect();
+                    let writers = want_bg.iter().filter(|x| x.ends_with(" bg0")).count().max(1);
+                    nums.windows(2).filter(|w| w[1] < w[0]).count() < writers * nums.len().max(1)
+                };
+                if !bg_ok {
+                    v.push(Violation {
+                        kind: "log-lines-differ".into(),
+                        detail: format!(
+                            "{}: background-writer lines attributed to {} are {:?}; the writers wrote {:?}",
+                            view, t, got_bg, want_bg
+                        ),
+                    });
+                    break;
+                }
                 // a sub-target of a target that is built again in the same session:
                 // the replay shows the last build of the parent, which found the
                 // sub-target unchanged and does not refer to its log; a live
